@@ -373,6 +373,31 @@ def initial_point(prog: Program, rep, x: ExcFlow) -> None:
                     for t in prog.property_targets(sv, nn):
                         if t.cls is it and _esc_classes(x, t.qualname, (EVAL,)):
                             early.append((s, nn))
+    # the Hessian is not cached by check_eval: it must be evaluated unconditionally inside the same conversion
+    handler_try = [t for t in s0.tries if any(x.is_subclass(EVAL, hc) for h in t.handlers for hc in x.handler_classes(sv, h))]
+    covered = False
+    for s in ff.order:
+        if not handler_try or handler_try[-1] not in s.tries or s.loops:
+            continue
+        if [f for f in s.facts if f not in s0.facts]:
+            continue
+        for e in header_exprs(s.stmt):
+            for nn in walk_expr(e):
+                if isinstance(nn, ast.Call):
+                    if isinstance(nn.func, ast.Attribute) and nn.func.attr == "lag_hess":
+                        covered = True
+                    for t in prog.resolve_call_target(sv, nn):
+                        if isinstance(t, FuncInfo):
+                            tf = facts_for(t)
+                            for q in tf.order:
+                                if q.facts or q.loops:
+                                    continue
+                                for e2 in header_exprs(q.stmt):
+                                    for mm in walk_expr(e2):
+                                        if isinstance(mm, ast.Call) and isinstance(mm.func, ast.Attribute) and mm.func.attr == "lag_hess" and it in prog.infer_type(t, mm.func.value):
+                                            covered = True
+    rep.check(covered, "initial-point-covers-hessian", sv.qualname, "lag_hess at the initial iterate",
+              "the Lagrangian Hessian at the starting point is evaluated unconditionally inside the initial-point conversion (so a failure there is the dedicated error, whatever the log level)", sv.loc(s0.stmt))
     rep.check(not early, "initial-point-first-evaluation", sv.qualname, short(early[0][0].stmt) if early else "",
               "no evaluation of the initial iterate happens before the guarded check_eval()", sv.loc(early[0][0].stmt) if early else sv.loc())
 
